@@ -326,3 +326,69 @@ def check_file(h, opts, rep, steps_done=None, pfx="C10", full=True):
                                 rep.v(pfx + ":csr_rows", "row b of the CSR spectrum is not bunch b's spectrum", record=rec, bunch=b, rel_err=e)
                                 break
     return P
+
+
+PHYSICS_DATASETS = ["/BunchProfile/data", "/BunchLength/data", "/BunchPosition/data", "/BunchPopulation/data",
+                    "/EnergyProfile/data", "/EnergySpread/data", "/EnergyAverage/data", "/CSR/Spectrum/data",
+                    "/CSR/Intensity/data", "/WakePotential/data"]
+
+
+def bits_equal(a, b):
+    """bitwise equality of float arrays, +0/-0 identified, NaN == NaN only with identical payload"""
+    if a.shape != b.shape:
+        return False
+    a = np.ascontiguousarray(a, dtype=np.float32)
+    b = np.ascontiguousarray(b, dtype=np.float32)
+    ai, bi = a.view(np.uint32), b.view(np.uint32)
+    same = (ai == bi) | ((a == 0) & (b == 0))
+    return bool(np.all(same))
+
+
+def step_index(h, steps, axis="/Info/AxisValues_t"):
+    t = h[axis].astype(np.float64)
+    return {int(s): i for i, s in enumerate(np.rint(t * steps).astype(int))}
+
+
+def compare_common_records(ha, hb, steps, datasets=None, particles=False, tol=None, phasespace=True):
+    """All records (matched by step number) present in both files must be identical in every physics
+    dataset.  Returns (n_compared, [mismatch dicts]).  tol=None -> bitwise; else relative to max."""
+    datasets = list(PHYSICS_DATASETS if datasets is None else datasets)
+    if particles:
+        datasets.append("/Particles/data")
+    ia, ib = step_index(ha, steps), step_index(hb, steps)
+    pa, pb = step_index(ha, steps, "/PhaseSpace/axis0"), step_index(hb, steps, "/PhaseSpace/axis0")
+    n = 0
+    bad = []
+
+    def cmp(x, y):
+        if tol is None:
+            return bits_equal(x, y)
+        if x.shape != y.shape:
+            return False
+        m = max(float(np.max(np.abs(x))) if x.size else 0.0, 1e-300)
+        return bool(np.all(np.abs(x.astype(np.float64) - y.astype(np.float64)) <= tol * m))
+
+    for ds in datasets:
+        if ds not in ha or ds not in hb:
+            continue
+        A, B = ha[ds], hb[ds]
+        if A.shape[0] == 0 or B.shape[0] == 0:
+            if (A.shape[0] == 0) != (B.shape[0] == 0) and ds != "/Particles/data":
+                bad.append(dict(dataset=ds, step=None, why="one file has no records"))
+            continue
+        for s in sorted(set(ia) & set(ib)):
+            if ia[s] >= A.shape[0] or ib[s] >= B.shape[0]:
+                continue
+            n += 1
+            if not cmp(A[ia[s]], B[ib[s]]):
+                bad.append(dict(dataset=ds, step=s))
+                break
+    A, B = ha["/PhaseSpace/data"], hb["/PhaseSpace/data"]
+    for s in (sorted(set(pa) & set(pb)) if phasespace else []):
+        if pa[s] >= A.shape[0] or pb[s] >= B.shape[0]:
+            continue
+        n += 1
+        if not cmp(A[pa[s]], B[pb[s]]):
+            bad.append(dict(dataset="/PhaseSpace/data", step=s))
+            break
+    return n, bad
